@@ -191,6 +191,17 @@ impl RecomputeHeap {
     pub(crate) fn max_height_allowed(&self) -> i32 {
         self.queues.borrow().len() as i32 - 1
     }
+    /// verification hook: (height, nodes in queue order) of the non-empty buckets
+    #[cfg(cormacrelf_incremental_rs_verif)]
+    pub(crate) fn verif_buckets(&self) -> Vec<(usize, Vec<NodeRef>)> {
+        self.queues
+            .borrow()
+            .iter()
+            .enumerate()
+            .filter(|(_, q)| !q.borrow().is_empty())
+            .map(|(h, q)| (h, q.borrow().iter().cloned().collect()))
+            .collect()
+    }
     pub(crate) fn set_max_height_allowed(&self, new_max_height: usize) {
         let mut queues = self.queues.borrow_mut();
         #[cfg(debug_assertions)]
